@@ -16,6 +16,7 @@ from .values import (SV, SymObj, SymMap, SymSeq, Leaf, Unsupported, as_real, as_
                      real_val, NameSort, name_distinct_axioms, is_symbolic)
 from .interp import Interp, Path, PyRaise, PathEnd, SOURCES, Models, BoundMethod
 
+from . import budget
 Z3_TIMEOUT_MS = int(os.environ.get("PYVC_Z3_TIMEOUT_MS", "20000"))
 CVC5_TIMEOUT_MS = int(os.environ.get("PYVC_CVC5_TIMEOUT_MS", "30000"))
 CVC5_BIN = "/usr/bin/cvc5"
@@ -497,7 +498,7 @@ def model_value(m, sv):
 
 def _tactic_solver(formulas, timeout_ms):
     s = z3.Solver()
-    s.set("timeout", timeout_ms)
+    s.set("timeout", budget.ms(timeout_ms))
     seed = int(os.environ.get("VERIF_SEED", "0") or 0)
     s.set("random_seed", seed % (2 ** 30))
     for f in formulas:
@@ -506,6 +507,7 @@ def _tactic_solver(formulas, timeout_ms):
 
 
 def run_cvc5(smt2, timeout_ms, extra=()):
+    timeout_ms = budget.ms(timeout_ms)
     with tempfile.NamedTemporaryFile("w", suffix=".smt2", delete=False, dir=_scratch_dir()) as fh:
         fh.write(smt2)
         fn = fh.name
@@ -560,7 +562,7 @@ def discharge(axioms, pc, goal, use_cvc5_fallback=True, also_cvc5=False, extra_a
         # solver instability guard: retry with other seeds before giving up (verdicts must not flip under load)
         for extra_seed in (1, 2):
             s2 = z3.Solver()
-            s2.set("timeout", Z3_TIMEOUT_MS)
+            s2.set("timeout", budget.ms(Z3_TIMEOUT_MS))
             s2.set("random_seed", 7919 * extra_seed)
             for f in fs:
                 s2.add(f)
